@@ -120,6 +120,8 @@ Why(k, e) == IF InSubpackage(k.tree, e) THEN "subpackage"
 \* ---------------------------------------------------------------- algorithm level (src/fs/glob.go)
 Flaws == {"rootDot", "hiddenBase", "rootLeadDS", "meta", "qmarkSep"}
 FlawOrder == <<"rootDot", "hiddenBase", "rootLeadDS", "meta", "qmarkSep">>
+\* flaws since repaired in the repository (fix: commits): the code's model is the algorithm with these repaired
+RepairedInCode == {"rootDot", "rootLeadDS", "meta", "qmarkSep"}
 Signature == [rootDot    |-> "root-package-dot-returned",
               hiddenBase |-> "hidden-directory-content-returned",
               rootLeadDS |-> "leading-doublestar-needs-a-directory-in-root-package",
@@ -210,9 +212,10 @@ AlgoPanic(k, R) == Panics(Compiled(k, R))
 
 \* which single repair brings path e back to what the property wants of it (want = should it be returned)
 Class(k, e, want, S) ==
-  IF AlgoPanic(k, {}) THEN "regex-metacharacter-unescaped (panic)"
+  IF AlgoPanic(k, RepairedInCode) THEN "regex-metacharacter-unescaped (panic)"
   ELSE LET w == CHOOSE w \in S.W : w.e = e
-           Ok(R) == LET M == Compiled(k, R) IN ~Panics(M) /\ AlgoRet(k, w, R, S, M) = want
+           Ok(R0) == LET R == R0 \cup RepairedInCode
+                        M == Compiled(k, R) IN ~Panics(M) /\ AlgoRet(k, w, R, S, M) = want
            ok == {i \in 1..Len(FlawOrder) : Ok({FlawOrder[i]})}
        IN IF ok # {} THEN Signature[FlawOrder[CHOOSE i \in ok : \A j \in ok : i <= j]]
           ELSE IF Ok(Flaws) THEN "several-flaws-combined" ELSE "unexplained"
@@ -319,7 +322,7 @@ CaseOK ==
       must == Must(k)
       may == May(k)
       S == k.S
-      a0 == AlgoSet(k, {}, S)
+      a0 == AlgoSet(k, RepairedInCode, S)
       aF == AlgoSet(k, Flaws, S)
       extra == a0 \ may
       missing == must \ a0
@@ -331,7 +334,7 @@ CaseOK ==
            inc    |-> [i \in 1..Len(k.inc) |-> Str(k.inc[i])],
            exc    |-> StrSet(k.exc),
            must   |-> StrSet(must), opt |-> StrSet(may \ must),
-           panic  |-> AlgoPanic(k, {}), algo |-> StrSet(a0),
+           panic  |-> AlgoPanic(k, RepairedInCode), algo |-> StrSet(a0),
            diffs  |-> SetToSeq({<<Str(e), "extra", Class(k, e, FALSE, S)>> : e \in extra}
                                \cup {<<Str(e), "missing", Class(k, e, TRUE, S)>> : e \in missing}),
            forbid |-> SetToSeq({<<Str(e), Why(k, e)>> : e \in Forbidden(k, may)}),
